@@ -12,7 +12,7 @@
     * a concrete nested tree satisfying all tree hypotheses of the C04 theorems, with the
       whole print / parse / print cycle evaluated. *)
 From CJ Require Import Base Dbl Tree LibcNum LibcPrint Grammar ParseDefs ParseSpec ParseComplete
-  ParseListStrtod PrintDefs PrintStrict CompareProofs RoundTripNum RoundTrip.
+  ParseListStrtod PrintDefs PrintStrict CompareProofs RoundTripNum RoundTrip RoundTripModel.
 Local Open Scope Z_scope.
 
 (** * Proved for the reference implementations *)
@@ -29,15 +29,7 @@ Qed.
 
 (** * The clauses as boolean checks *)
 
-(** identical representation *)
-Definition sf_same (a b : dbl) : bool :=
-  match a, b with
-  | S754_zero s, S754_zero s' => Bool.eqb s s'
-  | S754_infinity s, S754_infinity s' => Bool.eqb s s'
-  | S754_nan, S754_nan => true
-  | S754_finite s m e, S754_finite s' m' e' => Bool.eqb s s' && (Z.pos m =? Z.pos m') && (e =? e')
-  | _, _ => false
-  end.
+(** [sf_same] (RoundTripModel.v): identical representation *)
 
 (* V, on the conversions the printer's texts go through *)
 Definition chk_valid (t : bytes) : bool :=
